@@ -252,6 +252,7 @@ def check_path_builders(ctx, facts):
     n_sites = 0
     by_class = {}
     sanitize_pushers = set()
+    sanitize_sites = []
     for name, body in facts.bodies.items():
         if body.j["derived"]:
             continue
@@ -277,6 +278,7 @@ def check_path_builders(ctx, facts):
                 by_class[cls] = by_class.get(cls, 0) + 1
                 if cls == "sanitize":
                     sanitize_pushers.add(name)
+                    sanitize_sites.append((body, s))
                 ctx.ok("C14.3", F, "%s operand from %s" % (kind, cls), body.relfile, s.line)
             else:
                 ctx.violate("C14.3", F, "unsanitised-%s" % kind, body.relfile, s.line,
@@ -284,6 +286,49 @@ def check_path_builders(ctx, facts):
                             "sanitizer (trimming, slicing, concatenation) can re-introduce an empty, dot-only or separator-bearing component" % (callee_name(s.node), cls[:120]))
     for cls, least in (("sanitize", 1), ("millis", 1), ("index-name", 1)):
         ctx.floor("C14.3", "path components of class " + cls, by_class.get(cls, 0), least)
+    # a key that was supplied is always appended: within the body that pushes the sanitised key, the push can
+    # be bypassed only by "there is no key" - a discriminant test of a parameter or of the direct result of a
+    # key source (thread_namespace(), env::var(..)); a test of anything computed from the key (filter, trim,
+    # is_empty ...) lets some keys map to the data directory itself
+    from .core.cond import bypass_edges, classify_edge, call_site_of
+    for body, s_ in sanitize_sites:
+        F = common.short_fn(body.name)
+        pushes = [x.bb for b2, x in sanitize_sites if b2 is body]
+        for e in bypass_edges(body, 0, pushes):
+            if body.term(e[1])["k"] == "unreachable":
+                continue
+            T, which = classify_edge(body, e)
+            ok_b = False
+            if T is not None and T.kind == "discr" and not T.place["p"]:
+                l = T.place["l"]
+                seen_l = set()
+                while l is not None and l not in seen_l:
+                    seen_l.add(l)
+                    if 1 <= l <= body.arg_count:
+                        ok_b = True
+                        break
+                    cs = call_site_of(body, {"k": "copy", "place": {"l": l, "p": []}})
+                    if cs is not None:
+                        cn = strip_generics(callee_name(cs.node))
+                        ok_b = bool(re.search(r"(config|paths)::thread_namespace$|^std::env::var$|::thread_namespace$", cn))
+                        break
+                    sd = body.single_def(l)
+                    if sd is not None and sd[1] == "assign" and sd[2]["rv"]["k"] in ("use", "cast"):
+                        q = op_place(sd[2]["rv"]["op"])
+                        l = q["l"] if q is not None and not q["p"] else None
+                    else:
+                        l = None
+            if ok_b:
+                ctx.ok("C14.3", F, "the sanitised push is skipped only when no key was supplied", body.relfile, body.term(e[0]).get("line"))
+            else:
+                desc = "a test that is not `no key supplied`"
+                if T is not None and T.kind == "discr":
+                    cs = call_site_of(body, {"k": "copy", "place": T.place})
+                    if cs is not None:
+                        desc = "the result of %s" % strip_generics(callee_name(cs.node)).split("::", 1)[-1]
+                ctx.violate("C14.3", F, "supplied-key-not-appended", body.relfile, body.term(e[0]).get("line"),
+                            "the namespace directory is skipped depending on %s: for some supplied keys nothing is appended and the instance's files are created in the data "
+                            "directory itself (shared with every other instance)" % desc)
     # each constructor reaches a sanitised push (itself or through a helper of paths.rs)
     for w in ("paths::WalPathManager::default", "paths::WalPathManager::for_key", "paths::WalPathManager::with_data_dir"):
         b = facts.body(w)
@@ -365,7 +410,8 @@ def check_path_builders(ctx, facts):
             ctx.ok("C14.3", w, "constructs WalPathManager.root", None, None)
         else:
             ctx.violate("C14.3", w, "root-written-outside-constructors", None, None, "%s writes WalPathManager.root; only the three constructors may" % w)
-    ctx.floor("C14.3", "WalPathManager constructors", len(writers & allowed_w), 3)
+    # (a constructor may delegate to another one: at least one of them builds the value)
+    ctx.floor("C14.3", "WalPathManager constructors", len(writers & allowed_w), 1)
 
 
 def run(ctx):
